@@ -396,8 +396,21 @@ def known_findings():
     return kf
 
 
+def _short(x, depth=0):
+    """Evidence files are read by people and tools: long strings (payloads in hex) and long lists are abbreviated."""
+    if isinstance(x, str):
+        return x if len(x) <= 240 else x[:200] + "...(%d characters)" % len(x)
+    if isinstance(x, list):
+        y = [_short(v, depth + 1) for v in x[:40]]
+        return y + ["...(%d more)" % (len(x) - 40)] if len(x) > 40 else y
+    if isinstance(x, dict):
+        return {k: _short(v, depth + 1) for k, v in x.items()}
+    return x
+
+
 def write_evidence(pid, tier, seed, level, coverage, wall, violations, assumptions):
     os.makedirs(os.path.join(OUTROOT, "evidence"), exist_ok=True)
+    coverage = _short(coverage)
     ev = {"property_id": pid, "tier": tier, "seed": seed, "level": level, "coverage": coverage,
           "assumptions": assumptions, "wall_s": round(wall, 2), "violations": violations}
     with open(os.path.join(OUTROOT, "evidence", pid + ".json"), "w") as f:
